@@ -185,6 +185,63 @@ def check_outcome_push(fx, rep):
             rep.violation('R1-deferred-push', nm, '%s pushes the result word %s times on some path (expected exactly once on every path)' % (nm, sorted(set(bad))), f.where())
         else:
             rep.ok('R1-deferred-push', nm, '%d paths, one push each' % n)
+        check_outcome_values(fx, rep, f, nm)
+
+
+def check_outcome_values(fx, rep, f, nm):
+    """the word pushed for the finished callee, per class of its result: CALL family 1 on success and 0
+    otherwise (EOF EXT*CALL: 0 / 1 on revert / 2 on failure); CREATE family the new address on success
+    and 0 otherwise; unused gas comes back on success and revert, the refund counter on success only."""
+    import c09
+    import c15
+    try:
+        rs = Symx(fx, max_paths=3000, snapshot_refs=True).run(f)
+    except Budget:
+        return
+    cells = {}
+    for p in rs:
+        cls = None
+        eof = None
+        for (sv, lit, _f, _b) in p.lits:
+            txt = render(sv)
+            if txt.startswith('discr(') and 'instruction_result' in c15.render_deep(sv):
+                if lit[0] == 'eq':
+                    v = fx.variant_by_discr(c09.IR, lit[1])
+                    cls = 'ok' if v in c09.OK_REF else ('revert' if v in c09.REVERT_REF else 'other')
+                else:
+                    cls = 'other'
+            if 'is_eof' in txt:
+                eof = lit != ('eq', 0)
+        if cls is None:
+            continue
+        pushes = [e for e in p.events if e[0].startswith(isummary.STACK) and e[0].split('::')[-1] in ('push', 'push_b256')]
+        if len(pushes) != 1:
+            continue
+        val = c15.render_deep(pushes[0][1][1])
+        if val.endswith('Uint::ZERO'):
+            val = '0'
+        gas = tuple(sorted({e[0].split('::')[-1] for e in p.events if e[0].split('::')[-1] in ('erase_cost', 'record_refund')}))
+        cells.setdefault((cls, eof), set()).add((val, gas))
+    call = nm == 'insert_call_outcome'
+    bad = None
+    for (cls, eof), got in sorted(cells.items(), key=str):
+        if call:
+            want_val = {('ok', False): '1', ('ok', True): '0', ('revert', False): '0', ('revert', True): '1', ('other', False): '0', ('other', True): '2'}.get((cls, bool(eof)))
+        else:
+            want_val = 'address' if cls == 'ok' else '0'
+        want_gas = {'ok': ('erase_cost', 'record_refund'), 'revert': ('erase_cost',), 'other': ()}[cls]
+        for val, gas in got:
+            okv = ('address' in val and 'into_word' in val) if want_val == 'address' else (val == want_val)
+            if not okv:
+                bad = 'after a callee that ended in class `%s`%s the word pushed is %s, expected %s' % (cls, ' (EOF)' if eof else '', val[:60], want_val)
+            elif not set(gas) <= set(want_gas):
+                bad = 'after a callee that ended in class `%s` the gas operations are %s, expected %s' % (cls, list(gas), list(want_gas))
+        if not any(set(g) == set(want_gas) for _v, g in got):
+            bad = bad or 'after a callee that ended in class `%s` no path performs %s' % (cls, list(want_gas))
+    if bad or len(cells) < 3:
+        rep.violation('R1-deferred-push', nm + ':value', '%s: %s' % (nm, bad or 'result classes not recognised (%s)' % sorted(cells, key=str)), f.where())
+    else:
+        rep.ok('R1-deferred-push', nm + ':value', '%d (class, eof) cells' % len(cells))
 
 
 SLOTS = {
